@@ -70,6 +70,26 @@ func c04Scenarios(tier string) []*Scenario {
 				out = append(out, sc1("C04", c+"|"+rpcName(rpc), tr, c, rpc))
 			}
 		}
+		// the encoder / decoder / cloner as scheduling points (options "codec", cloner "yield"): the context
+		// may end while a frame already taken off the stream is being decoded into the caller's message
+		for _, c := range []string{"cancel", "deadline"} {
+			if c == "deadline" && tier != "thorough" {
+				continue
+			}
+			for _, rpc := range []RPC{
+				{Kind: "unary", Client: []string{"I"}, Handler: []string{"dec", "h:a", "t:b", "ret:ok"}},
+				{Kind: "ss", Client: []string{"S0", "C", "R*"}, Handler: []string{"r", "s0", "s1", "ret:ok"}},
+				{Kind: "cs", Client: []string{"S0", "C", "R*", "R", "R"}, Handler: []string{"r*", "s0", "ret:ok"}},
+				{Kind: "bd", Client: []string{"S0", "C", "R*", "R"}, Handler: []string{"r*", "s0", "t:b", "ret:st:5"}},
+			} {
+				sc := sc1("C04", c+"|codec|"+rpcName(rpc), tr, c, rpc)
+				sc.Opts = "codec"
+				if tr == "inproc" {
+					sc.Cloner = "yield"
+				}
+				out = append(out, sc)
+			}
+		}
 		// Header() parked or issued around the cancellation
 		for _, c := range []string{"cancel", "deadline"} {
 			out = append(out, sc1("C04", c+"|"+rpcName(RPC{Kind: "ss", Client: []string{"S0", "C", "H", "R*", "H"}, Handler: []string{"r", "w", "ret:ctx"}}), tr, c,
